@@ -84,11 +84,12 @@ func battery(c cfgT) func(s *sl.ShardSystem) {
 			s.Obs.Fail("dump-error", "%v", err)
 			return
 		}
-		env, err := sl.EnvFor(params.DistanceMetric, params.Quantizer, int(params.VectorSize), d["index/vectorFlat/"+prop])
+		env, err := sl.EnvFor(params.DistanceMetric, params.Quantizer, int(params.VectorSize), d["index/vectorFlat/"+prop], sl.NodeIds(d))
 		if err != nil {
 			s.Obs.Fail("harness-env", "%v", err)
 			return
 		}
+		sl.PQCheck(&s.Obs, "flat", env, s.M, prop)
 		for qi, qv := range queries {
 			for _, limit := range []int{1, 2, 75} {
 				for _, w := range []*float32{nil, f32(0.5), f32(-2)} {
@@ -143,8 +144,8 @@ type quant struct {
 }
 
 func master(cfg *harness.Config, rep *harness.Report) {
-	rep.Rule = "breadth-first search over write histories (insert with and without the vector, move, duplicate position, remove/add the field, delete, node-id reuse) x metric {euclidean, dot, cosine, haversine, hamming, jaccard} x quantiser {none, binary fixed threshold, binary learned (trigger 3)} x cache state {warm unlimited, reopened cold before every query, disabled, 1-byte limit}; after every batch 4 query vectors x limit {1,2,75} x weight {nil,0.5,-2} x pre-filter {none, subset, empty, partly vectorless}; each answer must be exactly the k nearest admissible points under the float64 definition of the index distance (ties at the cut either way)"
-	rep.Assumptions = []string{"product quantiser not covered (its minimum training size is 1000 points)", "a learned threshold is read back from the bucket, not predicted", "float32 rounding tolerance 1e-4 relative"}
+	rep.Rule = "breadth-first search over write histories (insert with and without the vector, move, duplicate position, remove/add the field, delete, node-id reuse) x metric {euclidean, dot, cosine, haversine, hamming, jaccard} x quantiser {none, binary fixed threshold, binary learned (trigger 3), product (2x2, trigger 3)} x cache state {warm unlimited, reopened cold before every query, disabled, 1-byte limit}; after every batch 4 query vectors x limit {1,2,75} x weight {nil,0.5,-2} x pre-filter {none, subset, empty, partly vectorless}; each answer must be exactly the k nearest admissible points under the float64 definition of the index distance (ties at the cut either way)"
+	rep.Assumptions = []string{"product quantiser: trigger threshold 3 instead of the HTTP layer's minimum of 1000 (same code path, training reachable within the bound); 2 sub-vectors x 2 centroids; centroids and centroid ids are read back from the bucket (k-means starts from a random point) and checked for consistency, the quantised distance is then the definition", "a learned threshold is read back from the bucket, not predicted", "float32 rounding tolerance 1e-4 relative"}
 	p := pool.New(pool.Options{CPUsPerWorker: 2, JobTimeout: 60 * time.Second})
 	if cfg.Replay != "" {
 		var r seqx.Replay
@@ -158,11 +159,13 @@ func master(cfg *harness.Config, rep *harness.Report) {
 	none := quant{"none", nil}
 	fixed := quant{"binfixed", &models.Quantizer{Type: models.QuantizerBinary, Binary: &models.BinaryQuantizerParamaters{Threshold: &thr, DistanceMetric: models.DistanceHamming}}}
 	learned := quant{"binlearned", &models.Quantizer{Type: models.QuantizerBinary, Binary: &models.BinaryQuantizerParamaters{TriggerThreshold: 3, DistanceMetric: models.DistanceJaccard}}}
+	// the shard layer takes the trigger threshold as given (the HTTP layer demands >= 1000): 3 makes training reachable at depth 2
+	product := quant{"product", &models.Quantizer{Type: models.QuantizerProduct, Product: &models.ProductQuantizerParameters{NumCentroids: 2, NumSubVectors: 2, TriggerThreshold: 3}}}
 	type combo struct {
 		metric string
 		q      quant
 	}
-	combos := []combo{{models.DistanceEuclidean, none}, {models.DistanceHamming, none}, {models.DistanceJaccard, none}, {models.DistanceEuclidean, learned}, {models.DistanceCosine, none}, {models.DistanceDot, fixed}, {models.DistanceHaversine, none}}
+	combos := []combo{{models.DistanceEuclidean, product}, {models.DistanceDot, product}, {models.DistanceCosine, product}, {models.DistanceEuclidean, none}, {models.DistanceHamming, none}, {models.DistanceJaccard, none}, {models.DistanceEuclidean, learned}, {models.DistanceCosine, none}, {models.DistanceDot, fixed}, {models.DistanceHaversine, none}}
 	depth := 3
 	if !cfg.Quick() {
 		depth = 4
